@@ -288,6 +288,9 @@ func OrderRelevant(m any) {}
 
 func FloatIsNaN(f float64) bool { return f != f }
 
+// SameFloat64: the same IEEE value (NaN counts as equal to NaN).
+func SameFloat64(a, b float64) bool { return a == b || (a != a && b != b) }
+
 // LoadImage is replaced natively by the kb package (real builder); calling it here is an error.
 func LoadImage(name string, dst any) { panic("zzverif.LoadImage is only available under gosym") }
 
